@@ -18,13 +18,23 @@
 (*                          by every evaluation (function bodies, default arguments) in every package   *)
 (*   FlawInPlaceSort        sorted()/reversed() reorder the backing object of their argument            *)
 (*                          (`l = l[:]` does not copy) and return a handle to it                        *)
-(* With all three FALSE the model is the repaired design and TLC proves Isolation/ExportsUnchanged      *)
+(*   FlawAppendSharesCapacity  `a + b` is slices.Clip(append(a, b...)): when a's backing array has spare     *)
+(*                          capacity (a comprehension with a filter allocates len(source)) the new      *)
+(*                          element is written into the SHARED array and the result is a slice of it:   *)
+(*                          one append alone is harmless sequentially, but two packages computing       *)
+(*                          F + [..] concurrently see each other's element (MC_AspScopes_race*.cfg,     *)
+(*                          one attempt: ExportsUnchanged holds, Isolation does not), and an index      *)
+(*                          assignment / sorted / reversed on the result changes F for everybody        *)
+(*                          Only reachable while Freeze wraps the original list (the repaired Freeze    *)
+(*                          copies into an exactly-sized array).                                        *)
+(* With all flaws FALSE the model is the repaired design and TLC proves Isolation/ExportsUnchanged      *)
 (* (MC_AspScopes_fixed.cfg); with the flaws as in the code TLC exhibits the leaks                       *)
 (* (MC_AspScopes_known.cfg) and GEN_* prints, for every P1 program, the property-level expectation      *)
 (* (`expect` = Original) next to the code-shaped prediction (`algo`).                                   *)
 EXTENDS Integers, Sequences, FiniteSets, TLC, Json, SequencesExt
 
-CONSTANTS FlawShallowListFreeze, FlawSharedConstants, FlawInPlaceSort,
+CONSTANTS FlawShallowListFreeze, FlawSharedConstants, FlawInPlaceSort, FlawAppendSharesCapacity,
+          OnlyTargets,   \* {} = the whole menu; otherwise P1 only touches these targets
           MaxMut,        \* P1 performs at most MaxMut mutation attempts
           DeepVias,      \* access paths enumerated for every step
           LastVias,      \* access paths enumerated additionally when it is P1's first attempt
@@ -34,12 +44,14 @@ CONSTANTS FlawShallowListFreeze, FlawSharedConstants, FlawInPlaceSort,
 \* ---------------- the subinclude S (rendered to build_defs text by the binding from these values)
 \*   L = InitL ; N = [InitN1, InitN2] ; D = {"k": InitDk}
 \*   def getL(): return L          def mk(): return <InitK>         def dflt(x=<InitK>): return x
-\*   def mkd(): return {"k": <InitDk>}
+\*   def mkd(): return {"k": <InitDk>}        F = [e for e in InitF + [5] if e < 5]   (capacity 4, length 3)
 InitL  == <<3, 1, 2>>
 InitN1 == <<2, 1>>
 InitN2 == <<3>>
 InitDk == <<2, 1>>
 InitK  == <<3, 1, 2>>
+InitF  == <<3, 1, 2>>
+P2Elem == 8                       \* what P2 appends when it evaluates F + [8]
 NewElem == 9                      \* the value every mutation writes / appends
 
 \* ---------------- values, handles, heap
@@ -49,7 +61,13 @@ RefOf(v)  == (v - 100) \div 2
 Frozen(v) == (v - 100) % 2 = 1
 Unbound   == -1
 
-Obj(kind, keys, items) == [kind |-> kind, keys |-> keys, items |-> items]
+\* slot: -1 = the backing array is exactly full; otherwise the value sitting in its first spare cell
+\* base: 0 = the object owns its cells; b > 0 = a slice of length len(b)+1 over object b's cells and spare cell
+\* (what append returns when it did not have to reallocate)
+Obj(kind, keys, items) == [kind |-> kind, keys |-> keys, items |-> items, slot |-> -1, base |-> 0]
+Items(h, r) == IF h[r].base = 0 THEN h[r].items ELSE h[h[r].base].items \o <<h[h[r].base].slot>>
+WithItems(h, r, its) == IF h[r].base = 0 THEN [h EXCEPT ![r].items = its]
+                        ELSE [h EXCEPT ![h[r].base].items = SubSeq(its, 1, Len(its) - 1), ![h[r].base].slot = its[Len(its)]]
 Alloc(h, o) == [h |-> Append(h, o), v |-> Handle(Len(h) + 1, FALSE)]
 Result(h, v, err) == [h |-> h, v |-> v, err |-> err]
 Err(h) == Result(h, Unbound, TRUE)
@@ -59,7 +77,7 @@ RECURSIVE FreezeVal(_, _), FreezeItems(_, _)
 FreezeVal(h, v) ==
   IF ~IsRef(v) THEN [h |-> h, v |-> v]
   ELSE LET o  == h[RefOf(v)]
-           fr == FreezeItems(h, o.items)          \* frozen[i] = v.Freeze() for every element
+           fr == FreezeItems(h, Items(h, RefOf(v)))          \* frozen[i] = v.Freeze() for every element
        IN IF o.kind = "list" /\ FlawShallowListFreeze
           THEN [h |-> h, v |-> Handle(RefOf(v), TRUE)]                 \* return pyFrozenList{pyList: l}
           ELSE [h |-> Append(fr.h, Obj(o.kind, o.keys, fr.items)),     \* return pyFrozen…{frozen}
@@ -79,12 +97,14 @@ RawHeap == << Obj("list", <<>>, InitL),                                   \* 1  
               Obj("dict", <<"k">>, <<Handle(5, FALSE)>>),                 \* 6  D
               Obj("list", <<>>, InitK),                                   \* 7  constant returned by mk()
               Obj("list", <<>>, InitK),                                   \* 8  constant default of dflt()
-              Obj("list", <<>>, InitDk) >>                                \* 9  constant inside mkd()'s dict literal
+              Obj("list", <<>>, InitDk),                                  \* 9  constant inside mkd()'s dict literal
+              [Obj("list", <<>>, InitF) EXCEPT !.slot = 0] >>             \* 10 F, built by a filtering comprehension
 FzL == FreezeVal(RawHeap, Handle(1, FALSE))
 FzN == FreezeVal(FzL.h, Handle(4, FALSE))
 FzD == FreezeVal(FzN.h, Handle(6, FALSE))
-Heap0 == FzD.h
-SEnv0 == [L |-> FzL.v, N |-> FzN.v, D |-> FzD.v]     \* the globals every package receives
+FzF == FreezeVal(FzD.h, Handle(10, FALSE))
+Heap0 == FzF.h
+SEnv0 == [L |-> FzL.v, N |-> FzN.v, D |-> FzD.v, F |-> FzF.v]     \* the globals every package receives
 \* interpreter.Subinclude evaluates S once (GetOrSet) and hands the same frozen globals to every package: `sub`
 \* holds that result (and what P2 defines alone) from Init on and never changes. (It is a variable rather than
 \* a definition also because TLC re-evaluates definitions built from RECURSIVE operators at every use.)
@@ -93,13 +113,15 @@ SEnv == sub.env
 Const(r) == Handle(r, ~FlawSharedConstants)          \* repaired design: folded constants are frozen
 
 \* ---------------- what P2 observes (its probes, in the order it reads them)
-Probes == <<"L", "N", "D", "getL", "mk", "dflt", "mkd">>
+\* "Fcat" is F + [8]: P2 appends (step "Fcat_w") and later serialises what it built (step "Fcat")
+Probes == <<"L", "N", "D", "getL", "mk", "dflt", "mkd", "F", "Fcat_w", "Fcat">>
+Spare(h, v) == FlawAppendSharesCapacity /\ h[RefOf(v)].slot >= 0
 RECURSIVE Flat(_, _), FlatItems(_, _, _, _)
 \* canonical int-sequence encoding of a value (type-safe equality): -1 [ -2 ] -3 { -4 } ; keys as -10-index
 KeyCode(k) == IF k = "k" THEN -11 ELSE -12
 Flat(h, v) == IF ~IsRef(v) THEN <<v>>
               ELSE LET o == h[RefOf(v)] IN
-                   IF o.kind = "list" THEN <<-1>> \o FlatItems(h, o.keys, o.items, 1) \o <<-2>>
+                   IF o.kind = "list" THEN <<-1>> \o FlatItems(h, o.keys, Items(h, RefOf(v)), 1) \o <<-2>>
                    ELSE <<-3>> \o FlatItems(h, o.keys, o.items, 1) \o <<-4>>
 FlatItems(h, keys, items, i) ==
   IF i > Len(items) THEN <<>>
@@ -112,6 +134,9 @@ ProbeFlatE(h, e, p) ==
     [] p = "mk"   -> Flat(h, Const(7))
     [] p = "dflt" -> Flat(h, Const(8))
     [] p = "mkd"  -> <<-3, KeyCode("k")>> \o Flat(h, Const(9)) \o <<-4>>
+    [] p = "F"    -> Flat(h, e.F)
+    [] p = "Fcat_w" -> <<>>
+    [] p = "Fcat" -> <<-1>> \o h[RefOf(e.F)].items \o <<P2Elem>> \o <<-2>>      \* append and read back in one step
 ProbeFlat(h, p) == ProbeFlatE(h, SEnv, p)
 ObserveFlatE(h, e) == [i \in 1..Len(Probes) |-> ProbeFlatE(h, e, Probes[i])]
 ObserveFlat(h) == ObserveFlatE(h, SEnv)
@@ -120,10 +145,10 @@ ObserveFlat0   == ObserveFlatE(Heap0, SEnv0)
 RECURSIVE Deep(_, _)
 Deep(h, v) == IF ~IsRef(v) THEN v
               ELSE LET o == h[RefOf(v)] IN
-                   IF o.kind = "list" THEN [i \in 1..Len(o.items) |-> Deep(h, o.items[i])]
+                   IF o.kind = "list" THEN [i \in 1..Len(Items(h, RefOf(v))) |-> Deep(h, Items(h, RefOf(v))[i])]
                    ELSE [k \in {o.keys[i] : i \in 1..Len(o.keys)} |->
                            Deep(h, o.items[CHOOSE i \in 1..Len(o.keys) : o.keys[i] = k])]
-ObserveE(h, e) == [L |-> Deep(h, e.L), N |-> Deep(h, e.N), D |-> Deep(h, e.D),
+ObserveE(h, e) == [F |-> Deep(h, e.F), Fcat |-> Deep(h, e.F) \o <<P2Elem>>, L |-> Deep(h, e.L), N |-> Deep(h, e.N), D |-> Deep(h, e.D),
                    getL |-> Deep(h, e.L), mk |-> Deep(h, Const(7)), dflt |-> Deep(h, Const(8)),
                    mkd |-> [k |-> Deep(h, Const(9))]]
 Observe(h) == ObserveE(h, SEnv)
@@ -132,16 +157,18 @@ Original     == sub.orig                 \* property level: what P2 defines alon
 OriginalFlat == sub.origFlat
 
 \* ---------------- P1's menu
-Names   == {"L", "N", "D", "x"}
+Names   == {"L", "N", "D", "x", "F"}
 Targets == Names \cup {"N0", "Dk", "getL", "mk", "dflt", "mkd", "mkdk"}
-Ops     == {"idx", "idxaug", "newkey", "setdefault", "aug", "sorted", "reversed"}
+Ops     == {"idx", "idxaug", "newkey", "setdefault", "aug", "sorted", "reversed", "concat"}
 AllVias == {"direct", "alias", "arg", "compr", "loop"}
 \* grammar of the BUILD language: an index assignment / += needs a name on its left-hand side
-DirectOK(op, t) == op \in {"sorted", "reversed"} \/ t \in Names
+DirectOK(op, t) == op \in {"sorted", "reversed", "concat"} \/ t \in Names
 \* prune attempts that are ill-typed whatever the heap looks like
-Applies(op, t) == /\ (op \in {"newkey", "setdefault"} => t \in {"D", "mkd", "x"})
+Applies(op, t) == /\ (OnlyTargets # {} => t \in OnlyTargets)
+                  /\ (op = "concat" => t \in {"F", "L"})
+                  /\ (op \in {"newkey", "setdefault"} => t \in {"D", "mkd", "x"})
                   /\ (op = "idxaug" => t \in {"N", "D", "mkd", "x"})
-Menu(vias) == [op : {"rebind"}, tgt : {"L", "N", "D"}, via : {"direct"} \cap vias] \cup
+Menu(vias) == [op : {"rebind"}, tgt : IF OnlyTargets = {} THEN {"L", "N", "D"} ELSE {"L", "N", "D"} \cap OnlyTargets, via : {"direct"} \cap vias] \cup
               {m \in [op : Ops, tgt : Targets, via : vias] :
                    /\ Applies(m.op, m.tgt)
                    /\ (m.via = "direct" => DirectOK(m.op, m.tgt))
@@ -151,7 +178,7 @@ Menu(vias) == [op : {"rebind"}, tgt : {"L", "N", "D"}, via : {"direct"} \cap via
 Elem(h, v, key) ==   \* v[0] for a list, v["k"] for a dict; Unbound if there is no such element
   IF ~IsRef(v) THEN Unbound
   ELSE LET o == h[RefOf(v)] IN
-       IF o.kind = "list" THEN (IF Len(o.items) >= 1 THEN o.items[1] ELSE Unbound)
+       IF o.kind = "list" THEN (IF Len(Items(h, RefOf(v))) >= 1 THEN Items(h, RefOf(v))[1] ELSE Unbound)
        ELSE IF \E i \in 1..Len(o.keys) : o.keys[i] = key
             THEN o.items[CHOOSE i \in 1..Len(o.keys) : o.keys[i] = key] ELSE Unbound
 TgtVal(h, env, t) ==
@@ -176,7 +203,7 @@ Apply(h, op, v) ==
   CASE op = "idx" ->                                            \* t[0] = 9  /  t["k"] = 9
          IF Frozen(v) THEN Err(h)                               \* pyFrozenList/pyFrozenDict.IndexAssign panic
          ELSE IF o.kind = "list"
-              THEN (IF Len(o.items) = 0 THEN Err(h) ELSE Result([h EXCEPT ![r] = SetItem(o, 1, NewElem)], v, FALSE))
+              THEN (IF Len(Items(h, r)) = 0 THEN Err(h) ELSE Result(WithItems(h, r, [Items(h, r) EXCEPT ![1] = NewElem]), v, FALSE))
               ELSE (IF KeyIdx(o, "k") = 0 THEN Result([h EXCEPT ![r] = Obj("dict", Append(o.keys, "k"), Append(o.items, NewElem))], v, FALSE)
                     ELSE Result([h EXCEPT ![r] = SetItem(o, KeyIdx(o, "k"), NewElem)], v, FALSE))
     [] op = "newkey" ->                                         \* t["new"] = 1
@@ -189,17 +216,19 @@ Apply(h, op, v) ==
          LET e == Elem(h, v, "k") IN
          IF Frozen(v) \/ e = Unbound \/ ~IsRef(e) THEN Err(h)
          ELSE IF h[RefOf(e)].kind # "list" THEN Err(h)
-         ELSE LET a == Alloc(h, Obj("list", <<>>, Append(h[RefOf(e)].items, NewElem)))    \* append reallocates: cap = len
-                  i == IF o.kind = "list" THEN 1 ELSE KeyIdx(o, "k")
-              IN Result([a.h EXCEPT ![r] = SetItem(o, i, a.v)], v, FALSE)
-    [] op = "aug" ->                                            \* x += [9] is x = x + [9]: a new list, also from a frozen one
+         ELSE LET a == Alloc(h, Obj("list", <<>>, Append(Items(h, RefOf(e)), NewElem)))   \* (nested lists here are exactly full)
+              IN IF o.kind = "list" THEN Result(WithItems(a.h, r, [Items(a.h, r) EXCEPT ![1] = a.v]), v, FALSE)
+                 ELSE Result([a.h EXCEPT ![r] = SetItem(o, KeyIdx(o, "k"), a.v)], v, FALSE)
+    [] op \in {"aug", "concat"} ->                              \* x += [9] is x = x + [9]; x = t + [9]: also from a frozen list
          IF o.kind # "list" THEN Err(h)
-         ELSE LET a == Alloc(h, Obj("list", <<>>, Append(o.items, NewElem))) IN Result(a.h, a.v, FALSE)
+         ELSE IF Spare(h, v)                        \* append writes the spare cell and returns a slice of the same array
+              THEN LET a == Alloc([h EXCEPT ![r].slot = NewElem], [Obj("list", <<>>, <<>>) EXCEPT !.base = r]) IN Result(a.h, a.v, FALSE)
+              ELSE LET a == Alloc(h, Obj("list", <<>>, Append(Items(h, r), NewElem))) IN Result(a.h, a.v, FALSE)
     [] op \in {"sorted", "reversed"} ->
          IF o.kind # "list" \/ Frozen(v) THEN Err(h)            \* args[0].(pyList) fails on a pyFrozenList
-         ELSE IF op = "sorted" /\ ~AllInts(o.items) THEN Err(h) \* list/int mixes do not compare
-         ELSE LET s == IF op = "sorted" THEN SortSeq(o.items, <) ELSE Reverse(o.items) IN
-              IF FlawInPlaceSort THEN Result([h EXCEPT ![r] = [o EXCEPT !.items = s]], v, FALSE)
+         ELSE IF op = "sorted" /\ ~AllInts(Items(h, r)) THEN Err(h) \* list/int mixes do not compare
+         ELSE LET s == IF op = "sorted" THEN SortSeq(Items(h, r), <) ELSE Reverse(Items(h, r)) IN
+              IF FlawInPlaceSort THEN Result(WithItems(h, r, s), v, FALSE)
               ELSE LET a == Alloc(h, Obj("list", <<>>, s)) IN Result(a.h, a.v, FALSE)
 
 \* ---------------- machine
@@ -208,7 +237,7 @@ vars == <<sub, heap, env1, st1, hist, pc2, obs2>>
 
 Init == /\ sub = [env |-> SEnv0, orig |-> Observe0, origFlat |-> ObserveFlat0]
         /\ heap = Heap0
-        /\ env1 = [L |-> SEnv0.L, N |-> SEnv0.N, D |-> SEnv0.D, x |-> Unbound]
+        /\ env1 = [L |-> SEnv0.L, N |-> SEnv0.N, D |-> SEnv0.D, F |-> SEnv0.F, x |-> Unbound]
         /\ st1 = "run" /\ hist = <<>>
         /\ pc2 = 0 /\ obs2 = <<>>
 
@@ -230,14 +259,20 @@ P1Step(m) ==
                   IF a.err THEN heap' = heap /\ env1' = env1 /\ st1' = "err"
                   ELSE /\ heap' = a.h /\ st1' = "run"
                        /\ env1' = IF m.via = "direct" /\ m.op = "aug" THEN [env1 EXCEPT ![m.tgt] = a.v]
-                                  ELSE IF m.via = "direct" /\ m.op \notin {"sorted", "reversed"} THEN env1
+                                  ELSE IF m.via = "direct" /\ m.op \notin {"sorted", "reversed", "concat"} THEN env1
                                   ELSE [env1 EXCEPT !.x = a.v]
   /\ UNCHANGED <<sub, pc2, obs2>>
 
 P2Read == /\ Concurrent /\ pc2 < Len(Probes)
           /\ pc2' = pc2 + 1
-          /\ obs2' = Append(obs2, ProbeFlat(heap, Probes[pc2 + 1]))
-          /\ UNCHANGED <<sub, heap, env1, st1, hist>>
+          /\ LET p == Probes[pc2 + 1]  rf == RefOf(SEnv.F) IN
+             IF p = "Fcat_w" /\ Spare(heap, SEnv.F)
+             THEN heap' = [heap EXCEPT ![rf].slot = P2Elem] /\ obs2' = Append(obs2, <<>>)
+             ELSE /\ heap' = heap
+                  /\ obs2' = Append(obs2, IF p = "Fcat" /\ Spare(heap, SEnv.F)
+                                         THEN <<-1>> \o heap[rf].items \o <<heap[rf].slot>> \o <<-2>>    \* reads the shared cell
+                                         ELSE ProbeFlat(heap, p))
+          /\ UNCHANGED <<sub, env1, st1, hist>>
 
 MenuFirst == Menu(DeepVias \cup LastVias)     \* zero-arity, so that TLC evaluates each menu once
 MenuDeep  == Menu(DeepVias)
@@ -250,13 +285,13 @@ Isolation        == \A i \in 1..Len(obs2) : obs2[i] = OriginalFlat[i]
 ExportsUnchanged == ObserveFlat(heap) = OriginalFlat
 \* only frozen handles are reachable from what S exports (the design invariant that makes the above hold)
 RECURSIVE AllFrozen(_, _)
-AllFrozen(h, v) == ~IsRef(v) \/ (Frozen(v) /\ \A i \in 1..Len(h[RefOf(v)].items) : AllFrozen(h, h[RefOf(v)].items[i]))
-ExportsDeepFrozen == /\ AllFrozen(Heap0, SEnv0.L) /\ AllFrozen(Heap0, SEnv0.N) /\ AllFrozen(Heap0, SEnv0.D)
+AllFrozen(h, v) == ~IsRef(v) \/ (Frozen(v) /\ \A i \in 1..Len(Items(h, RefOf(v))) : AllFrozen(h, Items(h, RefOf(v))[i]))
+ExportsDeepFrozen == /\ AllFrozen(Heap0, SEnv0.L) /\ AllFrozen(Heap0, SEnv0.N) /\ AllFrozen(Heap0, SEnv0.D) /\ AllFrozen(Heap0, SEnv0.F)
                      /\ \A r \in {7, 8, 9} : Frozen(Const(r))
 
 Class == IF st1 = "err" THEN "p1-error"
          ELSE IF ObserveFlat(heap) # OriginalFlat THEN "leak-candidate" ELSE "isolated"
-Defs == [L |-> InitL, N |-> <<InitN1, InitN2>>, Dk |-> InitDk, K |-> InitK]
+Defs == [L |-> InitL, N |-> <<InitN1, InitN2>>, Dk |-> InitDk, K |-> InitK, F |-> InitF]
 EmitCase == (Emit /\ hist # <<>>) =>
               PrintT(<<"CASE", ToJson([muts |-> hist, defs |-> Defs, expect |-> Original,
                                        algo |-> Observe(heap), p1err |-> (st1 = "err"), cls |-> Class])>>)
